@@ -20,7 +20,7 @@ MECHANISMS = ["jaxley.integrate:integrate", "jaxley.integrate:build_init_and_ste
               "jaxley.modules.base:Module.get_all_states", "jaxley.modules.base:Module.step"]
 MECHANISMS_REQUIRED = ["jaxley.integrate:integrate", "jaxley.utils.jax_utils:nested_checkpoint_scan"]
 REQUIRED = {"quick": {"split": 40, "manual_step": 8, "state_is_last": 30},
-            "thorough": {"split": 1214, "manual_step": 53, "state_is_last": 741}}
+            "thorough": {"split": 1138, "manual_step": 88, "state_is_last": 695}}
 WALL_BUDGET = {"quick": 1500, "thorough": 4 * 3600}
 TOL = 1e-9
 
